@@ -32,6 +32,9 @@ type Unit struct {
 	// in the package's root directory.
 	Adapter func(g *grammar.Grammar, files map[string]string) map[string]string
 	Params  compiler.Params
+	// RunPkg is the sub-package (relative to the unit directory) that provides VerifRun; ""
+	// means the unit's root package.
+	RunPkg string
 }
 
 // Result describes what happened to a unit.
@@ -214,7 +217,13 @@ func Build(dir string, units []Unit, results []Result, goBin string, race bool) 
 		}
 		sort.Strings(names)
 		for _, n := range names {
-			imports = append(imports, fmt.Sprintf("\t%s \"scratch/%s\"", n, n))
+			path := n
+			for _, u := range units {
+				if u.Name == n && u.RunPkg != "" {
+					path = n + "/" + u.RunPkg
+				}
+			}
+			imports = append(imports, fmt.Sprintf("\t%s \"scratch/%s\"", n, path))
 			table = append(table, fmt.Sprintf("\t%q: %s.VerifRun,", n, n))
 		}
 		if err := os.WriteFile(filepath.Join(dir, "main.go"), []byte(fmt.Sprintf(mainTemplate, strings.Join(imports, "\n"), strings.Join(table, "\n"))), 0o644); err != nil {
